@@ -2,9 +2,9 @@ package sx
 
 import (
 	"fmt"
-	"os"
 	"go/token"
 	"go/types"
+	"os"
 	"sort"
 	"strconv"
 	"strings"
@@ -25,8 +25,10 @@ type models struct {
 	clockFrozen bool
 	nowCount    int
 	// rand
-	rndCount int
-	rndDraws [][]BV
+	rndCount        int
+	rndDraws        [][]BV
+	noDistinctDraws bool
+	claimedDraw     map[*smt.Term]bool
 	// aead
 	seals []*sealEntry
 	// metrics
@@ -108,7 +110,7 @@ func objType(kind string) types.Type {
 func objIface(o *Obj) Iface { return Iface{T: objType(o.Kind), V: o} }
 
 func init() {
-	for _, k := range []string{"metrics.Timer", "metrics.Counter", "aes.Block", "cipher.AEAD"} {
+	for _, k := range []string{"metrics.Timer", "metrics.Counter", "aes.Block", "cipher.AEAD", "rand.Reader", "sql.Result"} {
 		objType(k)
 	}
 }
@@ -341,7 +343,7 @@ func (in *Interp) drawRandom(buf []Value) {
 		buf[i] = draw[i]
 	}
 	// ideal randomness: draws of at least 16 bytes never repeat
-	if len(draw) >= 16 {
+	if len(draw) >= 16 && !in.m.noDistinctDraws {
 		for _, p := range in.m.rndDraws {
 			if len(p) == len(draw) {
 				in.assume(in.tb.Not(in.eqBytes(p, draw)))
@@ -403,6 +405,16 @@ func init() {
 		in.drawRandom(buf)
 		return Tuple{mkBV(64, uint64(len(buf))), nilError()}
 	})
+
+	// crypto/rand.Reader (an io.Reader over the same model)
+	objMethods["rand.Reader.Read"] = func(in *Interp, fr *frame, o *Obj, a []Value) Value {
+		buf := bytesOf(a[0])
+		if in.maybeFault("rand", "Read") {
+			return Tuple{mkBV(64, 0), in.errorValue("vx: injected rand failure")}
+		}
+		in.drawRandom(buf)
+		return Tuple{mkBV(64, uint64(len(buf))), nilError()}
+	}
 
 	// crypto/aes + cipher: ideal AEAD
 	reg("crypto/aes.NewCipher", func(in *Interp, fr *frame, a []Value) Value {
